@@ -17,6 +17,7 @@ type c13World struct {
 	strict   bool
 	srv      int    // server state during the operations: 0 down, 1 bad signature, 2 good
 	accepted []bool // verdicts of the handshakes that name the distribution point
+	acceptedNoCDP []bool // verdicts of the handshakes of a certificate without distribution points
 	s1       *big.Int
 	c      *CRLRevocationChecker
 	fetch  config.CRLFetchMode
@@ -89,10 +90,20 @@ func c13Setup() *c13World {
 // point lists s1 (GOOD, ROLLED, NEXT) - so a handshake presenting serial s1 and naming it is rejected in
 // every sequential order of the operations, hence under every interleaving
 func (w *c13World) listedVerdicts(involvesCleanup bool) {
-	if w.fetch != config.CRLFetchModeActively || w.srv != 2 || involvesCleanup {
+	if involvesCleanup {
 		return
 	}
 	isListed := w.probe.Cmp(w.s1) == 0
+	if w.state <= 1 {
+		// a list naming s1 is in force before the operations, and every list that can replace it names s1 too:
+		// a handshake of serial s1 is rejected whether or not its certificate carries distribution points
+		for _, acc := range w.acceptedNoCDP {
+			verifrt.Assert(verifrt.Implies(isListed, !acc), "a certificate listed by a list in force is rejected under every interleaving (also while that list is being refreshed)")
+		}
+	}
+	if w.fetch != config.CRLFetchModeActively || w.srv != 2 {
+		return
+	}
 	for _, acc := range w.accepted {
 		verifrt.Assert(verifrt.Implies(isListed, !acc), "a handshake whose certificate is listed by the distribution point's (obtainable) list is rejected under every interleaving")
 	}
@@ -106,7 +117,8 @@ func (w *c13World) run(op int) {
 		w.accepted = append(w.accepted, err == nil && st != nil && !st.Revoked)
 	case 1:
 		c2 := crlrepository.VerifCert("CN=I1", w.probe)
-		_, _ = c.IsRevoked(c2, chainFor(c2))
+		st, err := c.IsRevoked(c2, chainFor(c2))
+		w.acceptedNoCDP = append(w.acceptedNoCDP, err == nil && st != nil && !st.Revoked)
 	case 2:
 		c.updateCRLs(false)
 	case 3:
